@@ -43,6 +43,10 @@ def _py_expected(rec: dict, other: str, ctx: Dict[str, Any]) -> str:
     return "".join(out)
 
 
+def _skip_reason(msg: str) -> str:
+    return "non-contiguous-slices" if "non-contiguous" in msg else msg[:40]
+
+
 def _py_shape(rec: dict) -> str:
     return ",".join(sorted(rec["shape"])) or "plain"
 
@@ -66,6 +70,8 @@ def py_case(rec: dict, other: str, ctx: Dict[str, Any], via_linter: bool = False
     vs = []
     if rec["valid"]:
         if kind == "exc":
+            if info["exc"] == "SQLFluffSkipFile":
+                base["reason"] = _skip_reason(info["msg"])
             vs.append(("ValidRenders", dict(base, outcome="exception", exc=info["exc"], site=info["site"], shape=_py_shape(rec)),
                        f"valid format string {text!r} (reference renders {want!r}) raises {info['exc']} in {info['site']}: {info['msg']}"))
         elif kind == "tmp":
@@ -342,6 +348,8 @@ def gen_long(seed: int, n: int):
         vals = dict(LONG_PLAIN, **LONG_DOTTED)
         if rnd.random() < 0.5:
             vals = {k2: rnd.choice(LONG_AFFIX) + v + rnd.choice(LONG_AFFIX) for k2, v in sorted(vals.items())}
+            # a value that is a quoted Python literal would be un-quoted by the templater's infer_type: keep one quote
+            vals = {k2: (v[1:] if v.startswith("'") and v.endswith("'") else v) for k2, v in vals.items()}
         if text in seen:
             continue
         seen.add(text)
@@ -394,10 +402,12 @@ def run_long(rep: Report, tier: str, seed: int) -> None:
     for r in val.rejected:
         mt = meta[r["id"]]
         sig = {"part": "python", "entry": "process", "shape": mt["shape"]}
-        if mt["affixed"] and r["clause"] == "RenderedEqualsFormat":
+        if mt["affixed"]:
             sig["values"] = "affixed"
         if mt["kind"] == "exc":
             sig.update(outcome="exception", exc=mt["info"]["exc"], site=mt["info"]["site"])
+            if mt["info"]["exc"] == "SQLFluffSkipFile":
+                sig["reason"] = _skip_reason(mt["info"]["msg"])
         elif mt["kind"] == "tmp":
             sig.update(outcome="templater-error")
         else:
